@@ -62,8 +62,12 @@ def r10_2(run, model):
                 continue
             if re.fullmatch(r"parse_(un)?signed(_integer)?", fn.name):
                 n += 1
-                body = run.facts.text(rel, fn.body["sp"])
-                t = tags(body)
+                # the helper and the same-file helpers it hands the text to (`parse_literal`): the bound of a generic parameter is part of it
+                # (`T: TryFrom<i64>` says the value passes through i64)
+                body = " ".join(run.facts.text(rel, g_.body["sp"]) + " " + " ".join(str(b_) for b_ in (g_.node.get("generics_text"), g_.node.get("where")) if b_)
+                                for g_ in model.scope_fns(fn, depth=2) if g_.body is not None)
+                sig = run.facts.text(rel, [fn.node["sp"][0], fn.node["sp"][1], fn.body["sp"][0], fn.body["sp"][1]])
+                t = tags(body) | tags(sig)
                 run.ob("R10.2", f"{fn.qual}|no fixed-width intermediate", not t, site(rel, fn.node["sp"]),
                        f"width tags inside the generic helper: {sorted(t) or 'none'}",
                        witness="18446744073709551615u64 is parsed through i64, fails, and silently becomes 0")
